@@ -335,6 +335,16 @@ def board_rows(chk, ctx, rule) -> None:
            'a row contributes its card for the board only if it has one for it (index < len(row)); shared rows are counted from 0')
 
 
+def _none_of_value(c) -> bool:
+    def never_none(t):
+        return t[0] in ('concat', 'repeat', 'tuple', 'list', 'num', 'lin') or (t[0] == 'call' and t[1] in ('tuple', 'list', 'len')) \
+            or (t[0] == 'mcall' and t[2] == 'clean')
+    if c[0] == 'is' and ('const', None) in c[1]:
+        other = [y for y in c[1] if y != ('const', None)]
+        return len(other) == 1 and never_none(other[0])
+    return False
+
+
 def showing_components(chk, ctx) -> None:
     fi = ctx.sfi('verify_hole_cards_showing_or_mucking')
     isbool = T.spec('isinstance(status_or_hole_cards, bool)', boolean=True)
@@ -400,6 +410,32 @@ def showing_components(chk, ctx) -> None:
         if not good:
             ok_flags = False
             why = T.show(stat)[:160]
+    # the cards reported as shown are the named ones (padded with unknowns to the size of the hand), never the filled-in hand: the
+    # tournament rule "all cards must be shown" and the record of the operation read them
+    ok_cards = True
+    n_cards = 0
+    why_c = ''
+    for p in ctx.paths(fi):
+        if not p.returned:
+            continue
+        cs = [unversion(c) for c in p.conds(flat=True)]
+        if not (T.mk_not(isbool) in cs and T.mk_not(none) in cs) or ('const', False) in cs:
+            continue
+        r = unversion(p.outcome[1])
+        if r[0] != 'tuple' or len(r[1]) != 5:
+            continue
+        cards, who = r[1][1], r[1][4]
+        if any(_none_of_value(c) or (c[0] == 'or' and all(_none_of_value(d) for d in c[1])) for c in cs):
+            continue          # "a freshly built tuple is None" cannot hold: the path is infeasible
+        n_cards += 1
+        named = T.spec('Card.clean(status_or_hole_cards)')
+        want_c = ('concat', named, ('repeat', ('tuple', (T.spec('Card.UNKNOWN'),)), T.spec('len(H) - len(N)', {'H': ('sub', ('self', 'hole_cards'), who), 'N': named})))
+        if cards != want_c:
+            ok_cards = False
+            why_c = T.show(cards)[:200]
+    chk.ob('C12.show_flags', f'State.{fi.name}:cards', ok_cards and n_cards > 0, fi.loc,
+           'the cards an explicit show reports are the cards that were named, padded with unknown cards to the size of the hand',
+           got=why_c or f'{n_cards} explicit path(s)')
     chk.ob('C12.show_flags', f'State.{fi.name}', ok_flags and n_exp > 0, fi.loc,
            'when the cards to show are named, exactly those cards are marked face up; the rest of the hand (known to the engine or not) stays face down '
            'and takes no part in the showdown', got=why or f'{n_exp} explicit path(s)')
